@@ -2,7 +2,7 @@
 """matrix.py [--todo] [mutant ids...]: which checks report which seeded change.
 Each change is applied to a scratch copy of /repo's working tree (removed afterwards); all registered checks run on the
 copy in one process in self-test mode (no evidence written). Result: seeded/MATRIX.json {mutant: {check: [rules that fired]}}.
---todo: only the changes that have no row yet.  Development tool; not a registered command."""
+--todo: only the changes that have no row yet.  --checks=C15,C10: run only these checks and merge into existing rows.  Development tool; not a registered command."""
 import json
 import os
 import shutil
@@ -12,6 +12,10 @@ import tempfile
 
 VERIF = "/verif"
 checks = [c["property_id"] for c in json.load(open(VERIF + "/MANIFEST.json"))["checks"]]
+only = [a.split("=", 1)[1].split(",") for a in sys.argv[1:] if a.startswith("--checks=")]
+merge = bool(only)
+if only:
+    checks = only[0]
 ids = [a for a in sys.argv[1:] if not a.startswith("--")] or sorted(
     d for d in os.listdir(VERIF + "/seeded") if os.path.exists(VERIF + "/seeded/%s/patch.diff" % d))
 mp = VERIF + "/seeded/MATRIX.json"
@@ -43,6 +47,10 @@ for mid in ids:
                 row.setdefault(cur, []).append("<checker error>")
         if "extract:" in r.stdout and "failed" in r.stdout:
             row["_status"] = "the changed tree does not compile under the analysis configuration"
+        if merge and isinstance(M.get(mid), dict):
+            old = {k: v for k, v in M[mid].items() if k not in checks}
+            old.update(row)
+            row = old
         M[mid] = row
         print(mid, row, flush=True)
     finally:
